@@ -1,10 +1,50 @@
-(* C18 — I/O failures are reported, never swallowed, and never worsen the data (interim: the rerun
-   corollary for Verify; the fault-propagation theorems are added when proved). *)
-From Gopar Require Import Model.Base Model.CRC Model.GoPath Model.FS Model.Par2 Proofs.Par2Facts.
+(* C18 — I/O failures are reported, never swallowed, and never worsen the data.
+   Model: Model/FS.v - every ReadFile / FindWithPrefixAndSuffix / WriteFile call has a number; a fault
+   schedule maps call numbers to faults (error without effect; for writes also error after a prefix was
+   written); a file that does not exist is a read RESULT, not a fault. *)
+From Gopar Require Import Model.Base Model.CRC Model.GoPath Model.FS Model.Par2 Proofs.Par2Facts Proofs.Par2Faults.
 Open Scope N_scope.
 
-(* whatever faults hit a Verify, it leaves the file map as it was: rerunning it without the fault
-   is running it on the original state *)
+(* REPORTED: an operation that returns success was not hit by any scheduled fault, i.e. if any fault is hit
+   the operation returns an error (contrapositive) - Verify, Repair, Create *)
+Theorem C18_verify_reported : forall md5 ix st c st',
+  par2_verify md5 ix st = (Ok c, st') -> no_fault_between st st'.
+Proof. exact verify_ok_no_fault. Qed.
+Print Assumptions C18_verify_reported.
+
+Theorem C18_repair_reported : forall md5 ix dbl st rp st',
+  par2_repair md5 ix dbl st = ((Ok tt, rp), st') -> no_fault_between st st'.
+Proof. exact repair_ok_no_fault. Qed.
+Print Assumptions C18_repair_reported.
+
+Theorem C18_create_reported : forall md5 cwd par files p st st',
+  par2_create md5 cwd par files p st = (Ok tt, st') -> no_fault_between st st'.
+Proof. exact create_ok_no_fault. Qed.
+Print Assumptions C18_create_reported.
+
+(* NEVER WORSENS: whatever the faults (torn writes included), a run changes only the paths it issued
+   write calls for; every other path keeps its content *)
+Theorem C18_repair_untouched : forall md5 ix dbl fs sched q,
+  let st' := snd (par2_repair md5 ix dbl (io_init fs sched)) in
+  ~ In q (written_paths (io_trace st')) -> fs_lookup (io_fs st') q = fs_lookup fs q.
+Proof. exact repair_touches_only_written. Qed.
+Print Assumptions C18_repair_untouched.
+
+Theorem C18_create_untouched : forall md5 cwd par files p fs sched q,
+  let st' := snd (par2_create md5 cwd par files p (io_init fs sched)) in
+  ~ In q (written_paths (io_trace st')) -> fs_lookup (io_fs st') q = fs_lookup fs q.
+Proof. exact create_touches_only_written. Qed.
+Print Assumptions C18_create_untouched.
+
+(* no success is reported for a file whose write did not complete *)
+Theorem C18_repaired_completed : forall md5 ix dbl fs sched r rp st',
+  par2_repair md5 ix dbl (io_init fs sched) = ((r, rp), st') ->
+  forall q, In q rp -> exists d, In (EvWrite q d true) (io_trace st').
+Proof. exact repaired_only_completed. Qed.
+Print Assumptions C18_repaired_completed.
+
+(* whatever faults hit a Verify, it leaves the file map as it was: rerunning it without the fault is
+   running it on the original state *)
 Theorem C18_verify_rerun : forall md5 ix fs sched,
   par2_verify md5 ix (io_init (io_fs (snd (par2_verify md5 ix (io_init fs sched)))) []) = par2_verify md5 ix (io_init fs []).
 Proof. intros. rewrite verify_pure. reflexivity. Qed.
